@@ -101,11 +101,17 @@ func sanitizationContextForAttributeValue(c context) (sanitizationContext, error
 // template that is called from inside attribute values.
 func attributeValueClass(c context) string {
 	sc, err := sanitizationContextForAttributeValue(c)
-	if err != nil {
+	if err != nil || c.element.continued {
 		return "Invalid"
 	}
 	s := sc.String()
 	switch {
+	case sc == sanitizationContextStyle:
+		if c.attr.value != "" || c.attr.dynamic {
+			s += "Partial"
+		}
+		// Whether an action may follow depends on how the text before it ends.
+		s += unfinishedCharRef(c.attr.value)
 	case !sc.isURLorTrustedResourceURL():
 		if c.attr.value != "" || c.attr.dynamic {
 			s += "Partial"
@@ -116,18 +122,62 @@ func attributeValueClass(c context) string {
 		s += "Start"
 	case c.attr.ambiguousValue:
 		s += "AmbiguousPrefix"
-	case urlPrefixLeavesSchemeOpen(sc, c.attr.value):
-		s += "UnsafePrefix"
+	default:
+		s += urlPrefixClass(sc, c.attr.value)
 		if c.attr.dynamicStart {
 			// Static text of the called template could still complete a scheme.
 			s += "AfterAction"
 		}
-	case strings.ContainsAny(html.UnescapeString(c.attr.value), "#?"):
-		s += "Query"
-	default:
-		s += "Prefix"
 	}
 	return s
+}
+
+// maxUnfinishedURLPrefixLen bounds the length of the URL prefixes that become part of the
+// names of the copies of called templates.
+const maxUnfinishedURLPrefixLen = 100
+
+const overlongUnfinishedURLPrefix = "UnfinishedPrefixTooLong"
+
+// urlPrefixClass sorts the static text that precedes a template call inside a URL attribute
+// value into classes such that the prefix validators cannot tell two prefixes of one class
+// apart, whatever text the called template appends to them.
+func urlPrefixClass(sc sanitizationContext, prefix string) string {
+	// A bare "&" at the end, as in `<a href="/foo?a=b&{{template "params" .}}">`, is not
+	// counted as the start of a character reference here.
+	if urlPrefixValidators[sc](strings.TrimSuffix(prefix, "&")) == nil {
+		// The scheme, if any, is complete and safe, and nothing at the end of the prefix
+		// waits for more text.
+		if strings.ContainsAny(html.UnescapeString(prefix), "#?") {
+			return "Query"
+		}
+		return "Prefix"
+	}
+	if urlPrefixStaysInvalid(sc, prefix) {
+		return "UnsafePrefix"
+	}
+	// Text of the called template could complete the scheme, the origin, a character
+	// reference or a percent-encoding triplet: the prefix itself matters.
+	if len(prefix) > maxUnfinishedURLPrefixLen {
+		return overlongUnfinishedURLPrefix
+	}
+	return "UnfinishedPrefix(" + prefix + ")"
+}
+
+// unfinishedCharRef returns the incomplete HTML character reference that s ends with, if any.
+func unfinishedCharRef(s string) string {
+	if loc := endsWithCharRefPrefixPattern.FindStringIndex(s); loc != nil {
+		return "(" + s[loc[0]:] + ")"
+	}
+	return ""
+}
+
+// validateTemplateCallContext returns an error if a template is called inside a URL attribute
+// value after static text that is too long to tell the copies of the called template apart.
+func validateTemplateCallContext(c context) error {
+	if c.state == stateAttr && strings.HasSuffix(strings.TrimSuffix(attributeValueClass(c), "AfterAction"), overlongUnfinishedURLPrefix) {
+		return fmt.Errorf("the %q attribute value of this %q element starts with more than %d bytes that do not yet make up a valid URL prefix", c.attr.name, c.element.name, maxUnfinishedURLPrefixLen)
+	}
+	return nil
 }
 
 // sanitizersForAttributeValue returns a list of names of functions that will be
